@@ -445,9 +445,15 @@ func routineTwo(state bool, w1, w2 []int, outcomes []int) func() {
 }
 
 // constBackoff is a deterministic cenkalti BackOff: constant 1s, optionally stopping after n.
-type constBackoff struct{ stopAfter int }
+// constBackoff: like cenkalti's policies it is not safe for concurrent use (plain field): the library
+// calls it under its lock; the race build attributes an unsynchronized pair of calls to the library.
+type constBackoff struct {
+	stopAfter int
+	plain     int
+}
 
 func (b *constBackoff) NextBackOff() time.Duration {
+	b.plain++
 	n := int(vsched.CtrAdd(200, 1))
 	vsched.Observe(oCb, 1, int64(n), 0)
 	if b.stopAfter > 0 && n > b.stopAfter {
@@ -457,6 +463,7 @@ func (b *constBackoff) NextBackOff() time.Duration {
 }
 
 func (b *constBackoff) Reset() {
+	b.plain = 0
 	vsched.CtrSet(200, 0)
 	vsched.Observe(oCb, 0, 0, 0)
 }
@@ -680,6 +687,84 @@ func init() {
 			}
 		}
 	}
+	eng.Register(&eng.Scenario{
+		Name: "routine-extcancel-result", Props: []string{"C14"}, ObsNames: stdObs, Manual: true,
+		Doc:   "RoutineContainer / StateRoutineContainer, with or without retry back-off (choices): the root context is cancelled by its owner from outside while the instance is running; the instance then returns nil or an error of its own (choice): that result - not context.Canceled - is the exit status: each exit callback is told it once, and a following SetContext(fresh, restart=true) runs the routine again only if it had returned an error",
+		Quick: eng.Bounds{PB: 2}, Thorough: eng.Bounds{PB: 3},
+		Body: func() {
+			state := vsched.Choose(2) == 1
+			retNil := vsched.Choose(2) == 1
+			var opts []routine.Option
+			if vsched.Choose(2) == 1 {
+				opts = append(opts, routine.WithBackoff(&constBackoff{}))
+			}
+			const cbNil, cbErr, cbOther = 240, 241, 242
+			opts = append(opts, routine.WithExitCb(func(err error) {
+				switch err {
+				case nil:
+					vsched.CtrAdd(cbNil, 1)
+				case errRoutine:
+					vsched.CtrAdd(cbErr, 1)
+				default:
+					vsched.CtrAdd(cbOther, 1)
+				}
+			}))
+			body := func(ctx context.Context) error {
+				first := vsched.CtrAdd(rRuns, 1) == 1
+				vsched.CtrAdd(rActive, 1)
+				<-ctx.Done()
+				vsched.CtrAdd(rActive, -1)
+				if !first {
+					return context.Canceled
+				}
+				if retNil {
+					return nil // (cleaned up successfully after being told to stop)
+				}
+				return errRoutine
+			}
+			root, cancelRoot := context.WithCancel(context.WithValue(context.Background(), ctxKey{}, 1))
+			defer cancelRoot()
+			var setContext func(ctx context.Context, restart bool) bool
+			var clear func() bool
+			if state {
+				k := routine.NewStateRoutineContainer[int](nil, opts...)
+				k.SetStateRoutine(func(ctx context.Context, st int) error { return body(ctx) })
+				k.SetState(1)
+				setContext, clear = k.SetContext, k.ClearContext
+			} else {
+				k := routine.NewRoutineContainer(opts...)
+				k.SetRoutine(body)
+				setContext, clear = k.SetContext, k.ClearContext
+			}
+			setContext(root, false)
+			vsched.Settle() // the instance is inside the function
+			cancelRoot()
+			vsched.Settle() // it has returned
+			wantNil, wantErr := int64(0), int64(1)
+			if retNil {
+				wantNil, wantErr = 1, 0
+			}
+			if n, e, o := vsched.Ctr(cbNil), vsched.Ctr(cbErr), vsched.Ctr(cbOther); n != wantNil || e != wantErr || o != 0 {
+				fail("C14.exit-callback", "the instance returned nil=%v after the root context was cancelled from outside: the exit callback was told nil %d, its error %d, something else (context.Canceled) %d time(s)", retNil, n, e, o)
+				return
+			}
+			setContext(context.WithValue(context.Background(), ctxKey{}, 2), true)
+			vsched.Settle()
+			wantRuns := int64(2)
+			if retNil {
+				wantRuns = 1 // a routine that returned nil is complete: restart=true only re-runs failed ones
+			}
+			if r := vsched.Ctr(rRuns); r != wantRuns {
+				oracle := "C14.extra-run"
+				if r < wantRuns {
+					oracle = "C14.missing-run"
+				}
+				fail(oracle, "the instance returned nil=%v after an outside cancellation; after SetContext(fresh, restart=true) the routine has run %d time(s) in total, want %d", retNil, r, wantRuns)
+			}
+			clear()
+			vsched.Settle()
+		},
+	})
 	eng.Register(&eng.Scenario{
 		Name: "routine-extcancel", Props: []string{"C04", "C05", "C14"}, ObsNames: stdObs,
 		Doc:   "RoutineContainer whose context is cancelled by its owner from outside (not through SetContext/ClearContext) while the instance is inside the function and slow to return; then every word of length 2 over {SetRoutine(new), RestartRoutine, SetContext(fresh,true|false), SetContext(same,false), WaitExited(cancelled ctx)}",
